@@ -270,7 +270,11 @@ func c09SeqJob(shard, nshards, maxPools, maxBusy int) Job {
 						r.exhausted = false
 						return r.toScen(name, t0, bounds)
 					}
-					c09SeqCase(r, name, i, j, c1, c2, busy)
+					calls := c09SeqCase(r, name, i, j, c1, c2, busy, 0)
+					// the same reload with its k-th API call failing, followed by the next periodic tick on the same ConfigMap
+					for k := 1; k <= calls; k++ {
+						c09SeqCase(r, name, i, j, c1, c2, busy, k)
+					}
 				}
 			}
 		}
@@ -291,8 +295,11 @@ func expectedPoolDesc(cfg world.Config, ip string) string {
 	return fmt.Sprintf("%s %s %d %v", net.IP(p.Mask).String(), p.Gateway.String(), p.Vlan, sn)
 }
 
-func c09SeqCase(r *caseResult, scen string, i, j int, c1, c2 world.Config, busy []string) {
+func c09SeqCase(r *caseResult, scen string, i, j int, c1, c2 world.Config, busy []string, faultAt int) int {
 	desc := fmt.Sprintf("config#%d -> config#%d allocated %v\n  from %s\n  to   %s", i, j, busy, c1.Pools, c2.Pools)
+	if faultAt > 0 {
+		desc = fmt.Sprintf("config#%d -> config#%d allocated %v, API call %d of the reload fails, then the next tick\n  from %s\n  to   %s", i, j, busy, faultAt, c1.Pools, c2.Pools)
+	}
 	w := world.New(c1)
 	if err := w.Start(); err != nil {
 		panic(err)
@@ -305,20 +312,38 @@ func c09SeqCase(r *caseResult, scen string, i, j int, c1, c2 world.Config, busy 
 		}
 	}
 	w.ConfigMap = c2.Pools
+	w.ResetFault(faultAt)
 	err := w.Reload()
+	calls := w.FaultCount()
+	w.ResetFault(0)
+	if faultAt > 0 {
+		err = w.Reload() // the periodic routine looks at the ConfigMap again
+	}
 	r.evals++
-	r.distinct[hashOf(i, j, busy, err != nil, dumpNoTime(w.MemDump()))] = true
+	r.distinct[hashOf(i, j, busy, faultAt, err != nil, dumpNoTime(w.MemDump()))] = true
 	if len(r.samples) < 3 && r.evals%401 == 1 {
 		r.samples = append(r.samples, desc)
 	}
 	class := "reload-matrix"
+	if faultAt > 0 {
+		class = "reload-matrix-fault"
+	}
 	if err != nil {
 		r.violate("C09", scen, class, "reload-failed", "reload", desc+": "+err.Error(), []string{desc})
-		return
+		return calls
+	}
+	if faultAt > 0 {
+		// a failed delete of a de-configured IP's object is logged and not retried by design: such leftovers in the store are
+		// not part of this property (the IP is not configured, nothing can hand it out); everything else must agree
+		for ip := range storeByIP(w) {
+			if !inConfig(c2.Pools, ip) {
+				delete(w.FIPs, ip)
+			}
+		}
 	}
 	if f := agreeMemStore(w); f != nil {
 		r.violate("C09", scen, class, "after-reload-"+f.Clause, "reload", desc+": "+f.Detail, []string{desc})
-		return
+		return calls
 	}
 	mem, _ := memByIP(w)
 	for ip, k := range keys {
@@ -351,6 +376,7 @@ func c09SeqCase(r *caseResult, scen string, i, j int, c1, c2 world.Config, busy 
 			r.violate("C09", scen, class, "ip-allocatable-after-reload", "reload", fmt.Sprintf("%s: %s (held by %s, configured after reload: %v) could be allocated again", desc, ip, k, inConfig(c2.Pools, ip)), []string{desc})
 		}
 	}
+	return calls
 }
 
 func init() {
